@@ -159,8 +159,9 @@ func (r *replicator) Load(ctx context.Context, entries []ipfslog.Entry) {
 	ctx, span := r.tracer.Start(ctx, "replicator-load", trace.WithAttributes(otkv.String("cids", strings.Join(cidsStrings, ","))))
 	defer span.End()
 
-	// bind context with root ctx
-	ctx, cancel := r.rootContextWithCancel(ctx)
+	// bind context with root ctx; queued items are shared by all requests, so the
+	// caller's cancellation must not abandon them half-way
+	ctx, cancel := r.rootContextWithCancel(context.WithoutCancel(ctx))
 	defer cancel()
 
 	wg := sync.WaitGroup{}
